@@ -31,6 +31,7 @@ class GPStub:
     def __deepcopy__(self, memo):
         g = GPStub(self.eng, self.D, self.max_fail, self.log)
         g.s2 = None if self.s2 is None else self.s2.copy()
+        g.X, g.y = getattr(self, "X", None), getattr(self, "y", None)
         g.nfail = self.nfail
         return g
 
@@ -43,6 +44,11 @@ class GPStub:
 
     def fit(self, X, y, s2=None, hyp0=None, options=None):
         self._shapes(X, y, s2)
+        if X.shape[0] == 0:
+            raise ValueError("zero-size array to reduction operation maximum which has no identity")   # gpyreg on an empty training set
+        self.X, self.y = X, y     # gpyreg.GP.fit stores the data it was given
+        if s2 is not None:
+            self.s2 = s2
         self.log.append(("fit", snap(np.asarray(_raw(X))), snap(np.asarray(_raw(y))), None if s2 is None else snap(np.asarray(_raw(s2)))))
         if self.nfail[0] < self.max_fail and self.eng.choose("fail"):
             self.nfail[0] += 1
@@ -100,6 +106,7 @@ class HRobust(Harness):
         if s2 is not None and p.get("symY", False) and not eng.concrete:
             s2 = to_obj(s2)
         gp.s2 = None if s2 is None else s2.copy()
+        gp.X, gp.y = X, Y      # local_gp_fitting installs the nearest-neighbour training set before the refit
         out = Out()
         err = None
         try:
@@ -114,6 +121,8 @@ class HRobust(Harness):
             out.ob("attempt_rows_are_training_rows", all(any(np.array_equal(np.asarray(r, dtype=float), x) for x in Xc) for r in l[1]))
             out.ob("noise_column_kept_iff_noise", (l[3] is not None) == noise)
         if err is None:
+            # the GP handed back is conditioned on the full nearest-neighbour set, whatever the retries dropped privately
+            out.ob("returned_gp_keeps_its_training_set", gp2.X is X and gp2.y is Y)
             out.ob("retries_until_success", len(fits) == gp.nfail[0] + 1)
             out.ob("success_flag_reports_failures", success == (1 if gp.nfail[0] == 0 else 0))
         return out
